@@ -25,6 +25,8 @@ import (
 	"github.com/tink-crypto/tink-go/v2/tink"
 )
 
+type tinkAEAD = tink.AEAD
+
 // ---------- audit sink ----------
 
 // sink is the io.Writer behind audit.New.  It records every record it is handed
